@@ -912,6 +912,14 @@ def main(ctx):
             m = gen_mesh(ctx.rng, kind, ['unref', 'partial_nodal'])
             batch.append(('raising-modifier', None, [{'op': 'new', 'o': 0, 'mesh': m}, q_op(0, q, cat[q][1][0]),
                                                      e_op(0, 'remove_useless_nodes'), q_op(0, q, cat[q][1][0])]))
+    # OBSERVATION, not part of the property (its quantifier lists the in-place modifiers):
+    # coordinates assigned by the user through the attribute setter leave caches stale
+    obs_q = [q for q in ('extract_surface', 'calculate_element_volumes', 'calculate_surface_normals')
+             if q in cat]
+    for q in obs_q:
+        batch.append(('observation', None, [{'op': 'new', 'o': 0, 'mesh': gen_mesh(ctx.rng, 'tet', [])},
+                                            q_op(0, q, {}), e_op(0, 'assign_nodes', {'kind': 'same_array'}),
+                                            q_op(0, q, {})]))
     n_rand = 150 if ctx.tier == 'quick' else 1500
     for _ in range(n_rand):
         batch.append(('random', None, gen_history(ctx.rng, cat, modifiers, ctx.tier)))
@@ -926,6 +934,11 @@ def main(ctx):
     harness_errors = []
     for (tag, payload, hist), res in zip(batch, results):
         ps = problems(hist, res)
+        if tag == 'observation':
+            ctx.notes.setdefault('observations', {}).setdefault(
+                'fd.nodes.data = v (user assignment, outside the property): later query differs from a '
+                'fresh equal mesh', []).append({'query': hist[1]['q'], 'differs': bool(ps)})
+            continue
         n_q = sum(1 for h in hist if h['op'] == 'query')
         for h in hist:
             if h['op'] == 'query':
